@@ -380,16 +380,23 @@ pub fn self_visit_oracle<'a, T: Ty<'a>>(b: &'a [u8], n: usize, pol: Option<usize
         Ok(Ok(p2)) => Outcome::Ok(T::f(&vb, p2.parsed()), p2.consumed()),
         Ok(Err(e)) => Outcome::Err(err_name(&e)),
     };
+    // every failing aspect is named (result: C15 / C09; callbacks: C04 as well)
+    let which = if pol.is_some() { "under-break-policy" } else { "never-breaking" };
+    let mut bad: Vec<String> = vec![];
     if got != want {
-        return format!("FAIL:self_visit-result-differs-from-visit({})", if pol.is_some() { "under-break-policy" } else { "never-breaking" });
+        bad.push(format!("self_visit-result-differs-from-visit({})", which));
     }
     if rec.evs != rec2.evs {
-        return format!("FAIL:self_visit-callbacks-differ-from-visit({})", if pol.is_some() { "under-break-policy" } else { "never-breaking" });
+        bad.push(format!("self_visit-callbacks-differ-from-visit({})", which));
     }
     if !got_rem_empty {
-        return "FAIL:self_visit-remainder-not-empty".into();
+        bad.push("self_visit-remainder-not-empty".into());
     }
-    "ok".into()
+    if bad.is_empty() {
+        "ok".into()
+    } else {
+        format!("FAIL:{}", bad.join("+"))
+    }
 }
 
 // ---------------------------------------------------------------- C07 prefix / extension
@@ -897,6 +904,20 @@ pub fn rb(name: &str, b: &[u8], n: usize, ours: &Result<usize, Error>, line: &st
                 }
             }
             "witness" => {
+                if let (Ok((w, k)), Ok(k2)) = (deserialize_partial::<bitcoin::Witness>(b), ours) {
+                    if k != *k2 {
+                        // the traversal is judged even when the consumed lengths differ (C04)
+                        let mut want = vec![format!("wt({})", w.len())];
+                        let mut o = vi_len(w.len() as u64);
+                        for (j, e) in w.iter().enumerate() {
+                            o += vi_len(e.len() as u64);
+                            want.push(format!("we({};@{}+{})", j, o, e.len()));
+                            o += e.len();
+                        }
+                        let t = if evs_s(&want) != ev_of_line(line) { "+witness-traversal" } else { "" };
+                        return Err(format!("FAIL:consumed-{}-vs-rust-bitcoin-{}{}", k2, k, t));
+                    }
+                }
                 let t = accept_reject!(bitcoin::Witness, b, ours)?;
                 match (t, ours) {
                     (Ok((w, _)), Ok(_)) => {
@@ -949,10 +970,11 @@ pub fn rb(name: &str, b: &[u8], n: usize, ours: &Result<usize, Error>, line: &st
                 }
                 match (theirs_ok, ours) {
                     (true, Ok(k)) => {
+                        let trav = evs_s(&want) != ev_of_line(line);
                         if *k != o {
-                            return Err("FAIL:witnesses-consumed".into());
+                            return Err(format!("FAIL:witnesses-consumed{}", if trav { "+witnesses-traversal" } else { "" }));
                         }
-                        if evs_s(&want) != ev_of_line(line) {
+                        if trav {
                             return Err("FAIL:witnesses-traversal".into());
                         }
                         let p = bsl::Witnesses::parse(b, n).unwrap().parsed_owned();
@@ -971,6 +993,15 @@ pub fn rb(name: &str, b: &[u8], n: usize, ours: &Result<usize, Error>, line: &st
                 if let (Ok((tx, k)), Ok(k2)) = (deserialize_partial::<bitcoin::Transaction>(b), ours) {
                     if k != *k2 {
                         let mut bad: Vec<String> = vec![format!("consumed-{}-vs-rust-bitcoin-{}", k2, k)];
+                        {
+                            // the callbacks before the final `transaction` one are the traversal of inputs / outputs /
+                            // witnesses of this very transaction (C04)
+                            let (want, _) = tx_events(&tx, 0);
+                            let head = evs_s(&want[..want.len() - 1]);
+                            if !ev_of_line(line).starts_with(head.as_str()) {
+                                bad.push("tx-traversal".into());
+                            }
+                        }
                         let d = pc(|| {
                             let pr = bsl::Transaction::parse(b).ok()?;
                             let p = pr.parsed();
